@@ -83,6 +83,9 @@ fn run_cache(n: usize, addrs: [IpAddr; 3], ts: [(i64, u32); 3], cutoff: Duration
         }
         i += 1;
     }
+    // not dropped: for N = 0 Kani 0.68 reports a spurious `__rust_dealloc` on the empty Vec that
+    // `repeat_with(..).take(0).collect()` builds (capacity is not folded to 0); dropping is not under test
+    std::mem::forget(cache);
     Run { n, addrs, ts, cutoff, idx, got }
 }
 
